@@ -25,39 +25,37 @@ pub fn run(cfg: &Cfg) -> i32 {
         cfg,
         "exploration",
         "case A = (program, history H1, continuation H2): a story is driven through H1 (flows, jumps, host assignments, sometimes ending in an error or mid-line), reset (same seed), then driven through H2 in lockstep with a freshly constructed story with the same bindings/observers/handler; snapshot and all globals/visit counts right after the reset and every record of H2 must be equal. case B = (program, history, jump): choose_path_string(kprobe, reset_call_stack=true) from an arbitrary point must keep all globals and visit counts (except the target's own) and leave nothing on the call stack: kprobe prints one line and falls off the end, so the error text tells whether a tunnel/function/thread frame survived. Non-trivial = all; distinct by (program, H1, kind).",
-        cfg.pick(800, 300000),
+        cfg.pick(800, 100000),
     );
-    let nprog = cfg.get_u64("programs", cfg.pick(300, 120000));
+    let nprog = cfg.get_u64("programs", cfg.pick(300, 40000));
     let mut gc = GenCfg::rich();
     gc.probe_knot = true;
     gc.thread_boost = true;
     let opts = CmpOpts::default();
-    // (case index, story): only this worker's share is generated and kept in memory
-    let mut stories: Vec<(usize, Compiled)> = Vec::new();
+    // one story at a time: nothing but the current case is kept in memory
     let corpus = corpus_stories(&cfg.corpus_dir(), true, false, 3000);
     let mut crng = Rng::derive(cfg.seed, "C17-corpus", 0);
     let mut idx: Vec<usize> = (0..corpus.len()).collect();
     crng.shuffle(&mut idx);
     let ncorpus = cfg.pick(20, corpus.len()).min(corpus.len());
-    for (k, i) in idx.into_iter().take(ncorpus).enumerate() {
-        if cfg.mine(k as u64) {
-            stories.push((k, corpus[i].clone()));
-        }
-    }
-    drop(corpus);
-    for i in 0..nprog {
-        let si = ncorpus + i as usize;
+    idx.truncate(ncorpus);
+    let mut sampled = 0;
+    for si in 0..ncorpus + nprog as usize {
         if !cfg.mine(si as u64) {
             continue;
         }
-        match generated(cfg.seed, "C17", i, &gc) {
-            GenOutcome::Ok(c) => stories.push((si, c)),
-            _ => rep.inconclusive("generated-program-did-not-compile"),
-        }
-    }
-    let mut sampled = 0;
-    for (si, c) in stories.iter() {
-        let si = *si;
+        let story: Compiled = if si < ncorpus {
+            corpus[idx[si]].clone()
+        } else {
+            match generated(cfg.seed, "C17", (si - ncorpus) as u64, &gc) {
+                GenOutcome::Ok(c) => c,
+                _ => {
+                    rep.inconclusive("generated-program-did-not-compile");
+                    continue;
+                }
+            }
+        };
+        let c = &story;
         let has_probe = c.info.knots.iter().any(|k| k == "kprobe");
         for h in 0..cfg.pick(4, 8) as usize {
             let mut rng = Rng::derive(cfg.seed, "C17-hist", (si * 100 + h) as u64);
